@@ -3,7 +3,7 @@
    Vocabulary (Spec/MuxSpec.v): a run of the model yields per call a [part]: result, n, the groups of Write calls and,
    as ghost output, the Packet records that were serialised completely ([pa_pkts]); [muxer_pkts] drops the packet a
    WritePacket call was handed (its counter is the caller's); [payload_ccs pid] are the 4-bit continuity counters of
-   the payload-carrying packets of a PID; [lifetimes pid] cuts the sequence at every successful RemoveElementaryStream(pid).
+   the payload-carrying packets of a PID; [emitted_ccs pid] collects them over a run.
    Hypotheses: no call of the history panicked (nil dereference in the caller's structures) and every WriteData got an
    adaptation field whose writer-internal members are zero on entry (DESIGN.md S1). *)
 From Coq Require Import ZArith List.
@@ -24,10 +24,11 @@ Theorem C05_no_burn : forall period ops o s' p,
 Proof. exact no_burn. Qed.
 Print Assumptions C05_no_burn.
 
-(* elementary streams: within every lifetime of every PID the counters of consecutive payload packets step by one mod 16 *)
+(* elementary streams: over the WHOLE history the counters of consecutive payload packets of a PID step by one mod 16;
+   a PID that is removed and added again (explicitly, or by automatic assignment) carries on where it stopped *)
 Theorem C05_cc : forall period ops pid, pid <> C_PIDPAT -> pid <> C_pmtStartPID ->
   no_panic (snd (mux_run_parts (new_muxer period) ops)) -> Forall op_entry_ok ops ->
-  Forall chain16 (lifetimes pid (combine ops (snd (mux_run_parts (new_muxer period) ops))) []).
+  chain16 (emitted_ccs pid (combine ops (snd (mux_run_parts (new_muxer period) ops)))).
 Proof. exact cc_chain_es. Qed.
 Print Assumptions C05_cc.
 
@@ -62,7 +63,7 @@ Print Assumptions C05_header_readback.
 (* the hypotheses are met by a concrete history; its counters *)
 Example C05_example :
   no_panic (snd ex_run) /\ Forall op_entry_ok ex_ops /\
-  lifetimes 257 (combine ex_ops (snd ex_run)) [] = [[0; 1; 2; 3; 4; 5; 6; 7; 8; 9; 10; 11; 12; 13; 14; 15; 0; 1; 2; 3; 4]] /\
-  lifetimes 256 (combine ex_ops (snd ex_run)) [] = [[0]; []] /\
+  emitted_ccs 257 (combine ex_ops (snd ex_run)) = [0; 1; 2; 3; 4; 5; 6; 7; 8; 9; 10; 11; 12; 13; 14; 15; 0; 1; 2; 3; 4] /\
+  emitted_ccs 256 (combine ex_ops (snd ex_run)) = [0; 1] /\
   emitted_ccs C_PIDPAT (combine ex_ops (snd ex_run)) = [0; 1; 2; 3].
 Proof. split; [exact ex_no_panic|]. split; [exact ex_entry_ok|]. vm_compute. repeat split. Qed.
